@@ -42,7 +42,7 @@ bool ComplexDouble::__eq__(const Basic &o) const
 {
     if (is_a<ComplexDouble>(o)) {
         const ComplexDouble &s = down_cast<const ComplexDouble &>(o);
-        return this->i == s.i;
+        return compare(s) == 0;
     }
     return false;
 }
@@ -51,12 +51,19 @@ int ComplexDouble::compare(const Basic &o) const
 {
     SYMENGINE_ASSERT(is_a<ComplexDouble>(o))
     const ComplexDouble &s = down_cast<const ComplexDouble &>(o);
-    if (i == s.i)
-        return 0;
-    if (i.real() == s.i.real()) {
-        return i.imag() < s.i.imag() ? -1 : 1;
-    }
-    return i.real() < s.i.real() ? -1 : 1;
+    // Lexicographic on (real, imaginary); NaN sorts after every other
+    // double and equal to NaN
+    auto cmp = [](double a, double b) -> int {
+        if (a == b or (std::isnan(a) and std::isnan(b)))
+            return 0;
+        if (std::isnan(a) or std::isnan(b))
+            return std::isnan(a) ? 1 : -1;
+        return a < b ? -1 : 1;
+    };
+    int c = cmp(i.real(), s.i.real());
+    if (c != 0)
+        return c;
+    return cmp(i.imag(), s.i.imag());
 }
 
 RCP<const ComplexDouble> complex_double(std::complex<double> x)
